@@ -190,9 +190,9 @@ func init() {
 					x := g.Struct(k, 5+idx%3, true)
 					docCase(c, x, fmt.Sprintf("deep %s", k.Name), newDocWriter(c.R))
 				}},
-				{Name: "random", N: tierN(tier, 15000, 300000), Run: func(c *Ctx, idx int) {
+				{Name: "random", N: tierN(tier, 15000, 60000), Run: func(c *Ctx, idx int) {
 					g := caseGen(c, false, idx)
-					x, label := randomValue(g, tierN(tier, 2, 4))
+					x, label := randomValue(g, tierN(tier, 2, 3))
 					docCase(c, x, label, newDocWriter(c.R))
 				}},
 				{Name: "mocks", N: len(mocks) * mutPerMock * tierN(tier, 1, 10), Run: func(c *Ctx, idx int) {
